@@ -12,6 +12,7 @@ import (
 	"os"
 	"path/filepath"
 	"regexp"
+	"sort"
 	"strconv"
 	"strings"
 	"sync"
@@ -930,4 +931,112 @@ func TestVerifC04ClientFeedback(t *testing.T) {
 		}
 	}
 	en.Done(true)
+}
+
+// TestVerifC04FeedbackRace: client mode, two server instances up at once (--max-servers 2). For one case the reference
+// server reports feedback at once while the client's (matching) answer arrives 1.5 s later - by then the other
+// instance's batch is over. The feedback still turns that case into a failure: the run fails and names it.
+func TestVerifC04FeedbackRace(t *testing.T) {
+	en := verifkit.NewEnum(t, "C04FeedbackRace")
+	type row struct {
+		Held    int    `json:"heldPermutation"` // index (sorted names) of the permutation whose answer is held back
+		Marking string `json:"marking"`
+	}
+	const config = `features:
+  versions: [HTTP_VERSION_1, HTTP_VERSION_2]
+  protocols: [PROTOCOL_CONNECT]
+  codecs: [CODEC_PROTO]
+  compressions: [COMPRESSION_IDENTITY]
+  streamTypes: [STREAM_TYPE_UNARY]
+  supportsTls: false
+  supportsH2c: true
+  supportsConnectGet: false
+  supportsMessageReceiveLimit: false
+`
+	for _, held := range []int{0, 3} {
+		for _, marking := range []string{"none", "flaky"} {
+			r := row{held, marking}
+			dir := vfFateWorkDir()
+			suite := &conformancev1.TestSuite{Name: "Verif Race", Mode: conformancev1.TestSuite_TEST_MODE_CLIENT}
+			for i := 0; i < 2; i++ {
+				msg, _ := anypb.New(&conformancev1.UnaryRequest{ResponseDefinition: &conformancev1.UnaryResponseDefinition{
+					Response: &conformancev1.UnaryResponseDefinition_ResponseData{ResponseData: []byte(fmt.Sprintf("data-%d", i))}}})
+				suite.TestCases = append(suite.TestCases, &conformancev1.TestCase{Request: &conformancev1.ClientCompatRequest{
+					TestName: fmt.Sprintf("race/case-%d", i), StreamType: conformancev1.StreamType_STREAM_TYPE_UNARY, RequestMessages: []*anypb.Any{msg}}})
+			}
+			suiteJSON, _ := protojson.Marshal(suite)
+			suiteFile, cfgFile := filepath.Join(dir, "suite.yaml"), filepath.Join(dir, "config.yaml")
+			_ = os.WriteFile(suiteFile, suiteJSON, 0o644)
+			_ = os.WriteFile(cfgFile, []byte(config), 0o644)
+			suites, err := parseTestSuites(map[string][]byte{suiteFile: suiteJSON})
+			if err != nil {
+				t.Fatal(err)
+			}
+			cfgCases, err := parseConfig(cfgFile, []byte(config))
+			if err != nil {
+				t.Fatal(err)
+			}
+			lib, err := newTestCaseLibrary(suites, cfgCases, conformancev1.TestSuite_TEST_MODE_CLIENT)
+			if err != nil {
+				t.Fatal(err)
+			}
+			var names []string
+			for n := range lib.testCases {
+				names = append(names, n)
+			}
+			sort.Strings(names)
+			script := vfClientScript{Expected: map[string][]byte{}, Actions: map[string]string{}, ExitAfter: -1, Order: "immediate"}
+			for _, n := range names {
+				script.Expected[n], _ = proto.Marshal(lib.testCases[n].ExpectedResponse)
+			}
+			target := names[held%len(names)]
+			script.Actions[target] = "feedback-hold"
+			var flaky []string
+			if marking == "flaky" {
+				flaky = []string{target}
+			}
+			scriptFile, logFile := filepath.Join(dir, "script.json"), filepath.Join(dir, "peer.log")
+			data, _ := json.Marshal(script)
+			_ = os.WriteFile(scriptFile, data, 0o644)
+			logP, errP := &vfSyncPrinter{}, &vfSyncPrinter{}
+			type runResult struct {
+				ok  bool
+				err error
+			}
+			ch := make(chan runResult, 1)
+			go func() {
+				ok, err := Run(&Flags{ConfigFile: cfgFile, TestFiles: []string{suiteFile}, KnownFlakyPatterns: flaky,
+					ClientCommand: vfPeerCommand("script-client", scriptFile, logFile), MaxServers: 2, Parallelism: 4, ServerBind: "127.0.0.1"}, logP, errP)
+				ch <- runResult{ok, err}
+			}()
+			var viol error
+			select {
+			case rr := <-ch:
+				out := logP.Full()
+				gotOK := rr.ok && rr.err == nil
+				switch {
+				case len(names) != 4:
+					viol = verifkit.Violf("feedback-race-harness", "%d permutations, want 4", len(names))
+				case gotOK != (marking == "flaky"):
+					viol = verifkit.Violf(fmt.Sprintf("feedback-race-verdict:%v", gotOK), "Run = (%v, %v) although the reference server reported feedback for %q (its matching answer arrived 1.5 s later, after the other server's batch had ended; marking %s)\noutput (tail):\n%s", rr.ok, rr.err, target, marking, vfC04Tail(out, 1500))
+				case marking == "none" && !strings.Contains(out, "FAILED: "+target+":"):
+					viol = verifkit.Violf("feedback-race-unnamed", "%q drew feedback but no FAILED line names it\noutput (tail):\n%s", target, vfC04Tail(out, 1500))
+				}
+			case <-time.After(3 * time.Minute):
+			}
+			_ = os.RemoveAll(dir)
+			en.Rec.Observe(r, []string{"marking:" + marking, fmt.Sprintf("held:%d", held)}, true)
+			if viol != nil && en.Fail(r, viol) {
+				break
+			}
+		}
+	}
+	en.Done(true)
+}
+
+func vfC04Tail(s string, n int) string {
+	if len(s) > n {
+		return "..." + s[len(s)-n:]
+	}
+	return s
 }
